@@ -185,16 +185,18 @@ func fnJoin(args []object.Object) object.Object {
 		return &object.Null{}
 	}
 
-	// Do the join
-	out := ""
-	len := len(args[0].(*object.Array).Elements)
-
-	for i, entry := range(args[0].(*object.Array).Elements) {
-		out += entry.Inspect()
-		if i != len-1 {
-			out += args[1].(*object.String).Value
-	        }
+	// Do the join.
+	//
+	// (The pieces are collected and joined in one go: appending them
+	// to a string one after the other copies what has been built so
+	// far every time, and a script could keep us busy for minutes,
+	// long after its deadline, with an array of moderate size.)
+	elements := args[0].(*object.Array).Elements
+	parts := make([]string, 0, len(elements))
+	for _, entry := range elements {
+		parts = append(parts, entry.Inspect())
 	}
+	out := strings.Join(parts, args[1].(*object.String).Value)
 
 	return &object.String{Value: out}
 }
